@@ -56,6 +56,9 @@ func classify(rel string) string {
 // makeBackup builds a small database and stores it. With delta, a churn
 // goroutine makes sure the delta shards are non-empty.
 func makeBackup(c *rt.C, r *rand.Rand, mem string, delta bool, nKeys int, dir string) *backup {
+	if nKeys < 0 {
+		return makeRegularBackup(c, r, mem, -nKeys, dir)
+	}
 	db := OpenDB(DBOpt{Mem: mem, KV: r.Intn(2) == 0, Delta: delta})
 	h := BuildHistory(r, db, HistOpt{NKeys: nKeys, Epochs: 2 + r.Intn(3), OpsPerEpoch: nKeys + r.Intn(nKeys+1), KeepProb: 0, Writers: 2, DeleteBias: 35})
 	target := h.Snaps[len(h.Snaps)-1]
@@ -106,6 +109,61 @@ func makeBackup(c *rt.C, r *rand.Rand, mem string, delta bool, nKeys int, dir st
 	})
 	sort.Slice(b.files, func(i, j int) bool { return b.files[i].rel < b.files[j].rel })
 	return b
+}
+
+// makeRegularBackup stores n equal-length, consecutively numbered keys ("k0".."k3", "k00".."k15", ...):
+// the kind of data whose per-shard xor of item CRCs is exactly 0 (CRC32 is affine, so the xor over
+// an even number of equal-length items is the CRC-part of the xor of the items, which is 0 for
+// aligned groups of four consecutive numbers).
+func makeRegularBackup(c *rt.C, r *rand.Rand, mem string, n int, dir string) *backup {
+	db := OpenDB(DBOpt{Mem: mem})
+	w := db.N.NewWriter()
+	model := NewModel()
+	width := len(fmt.Sprint(n - 1))
+	for i := 0; i < n; i++ {
+		k := []byte(fmt.Sprintf("k%0*d", width, i))
+		w.Put(k)
+		model.Put(string(k), k)
+	}
+	s, _ := db.N.NewSnapshot()
+	if err := db.N.StoreToDisk(dir, s, pick(r, 1, 2, 8), nil); err != nil {
+		c.Inconclusive("StoreToDisk failed: " + err.Error())
+		return nil
+	}
+	b := &backup{dir: dir, want: model.Snapshot(), db: db}
+	filepath.Walk(dir, func(p string, info os.FileInfo, err error) error {
+		if err == nil && !info.IsDir() {
+			rel, _ := filepath.Rel(dir, p)
+			data, _ := os.ReadFile(p)
+			b.files = append(b.files, bkFile{rel: filepath.ToSlash(rel), class: classify(filepath.ToSlash(rel)), data: data})
+		}
+		return nil
+	})
+	sort.Slice(b.files, func(i, j int) bool { return b.files[i].rel < b.files[j].rel })
+	return b
+}
+
+// zeroChecksumShards counts non-empty data shards whose recorded checksum is 0.
+func (b *backup) zeroChecksumShards() int {
+	var sums []uint32
+	var files []string
+	for _, f := range b.files {
+		if f.class == "checksums.json" {
+			json.Unmarshal(f.data, &sums)
+		}
+		if f.class == "files.json" {
+			json.Unmarshal(f.data, &files)
+		}
+	}
+	n := 0
+	for i, name := range files {
+		for _, f := range b.files {
+			if f.rel == "data/"+name && len(f.data) > 4 && i < len(sums) && sums[i] == 0 {
+				n++
+			}
+		}
+	}
+	return n
 }
 
 type fault struct {
@@ -160,6 +218,15 @@ func (b *backup) apply(f fault) (undo func()) {
 	case "delete":
 		os.Remove(filepath.Join(b.dir, f.File))
 		return restore(f.File)
+	case "multi-flip":
+		for _, rel := range f.Files {
+			d := append([]byte(nil), byRel[rel].data...)
+			if f.Off < len(d) {
+				d[f.Off] ^= 1 << uint(f.Val)
+			}
+			os.WriteFile(filepath.Join(b.dir, rel), d, 0644)
+		}
+		return restore(f.Files...)
 	case "multi-truncate":
 		for i, rel := range f.Files {
 			d := byRel[rel].data
@@ -296,6 +363,25 @@ func (b *backup) multiFaults(r *rand.Rand, concurr int) []fault {
 			sel = append(sel, shards[i])
 		}
 		sort.Strings(sel)
+		// the same bit flipped at the same offset of several shards (correlated damage; with equal-length
+		// items the per-shard checksum changes are identical, so they cancel in any xor-combined check)
+		var nonEmpty []string
+		minLen := 1 << 30
+		for _, rel := range sel {
+			for _, bf := range b.files {
+				if bf.rel == rel && len(bf.data) > 8 {
+					nonEmpty = append(nonEmpty, rel)
+					if len(bf.data) < minLen {
+						minLen = len(bf.data)
+					}
+				}
+			}
+		}
+		if len(nonEmpty) >= 2 {
+			for t := 0; t < 6; t++ {
+				fs = append(fs, fault{Op: "multi-flip", Class: "data-shard", Files: nonEmpty[:2+r.Intn(len(nonEmpty)-1)], Off: 4 + r.Intn(minLen-8), Val: r.Intn(8)})
+			}
+		}
 		fs = append(fs, fault{Op: "multi-truncate", Class: "data-shard", Files: sel, Val: r.Intn(4)})
 		fs = append(fs, fault{Op: "multi-delete", Class: "data-shard", Files: sel})
 	}
@@ -307,7 +393,11 @@ func runC11(c *rt.C) {
 	debug.SetGCPercent(20) // damaged length prefixes make the loader allocate up to 4 GiB at a time
 	mem := []string{"go", "go", "poison", "pageguard"}[c.Index%4]
 	delta := (c.Index/4)%2 == 1
-	nKeys := pick(r, 1, 3, 8, 20)
+	nKeys := pick(r, 1, 3, 8, 20, 60, 250)
+	if c.Index%4 == 1 {
+		nKeys = -pick(r, 4, 8, 16, 100, 400, 1000) // regular, consecutively numbered equal-length keys
+		delta = false
+	}
 	nitro.DiskBlockSize = pick(r, 64, 4096, 512*1024)
 	defer func() { nitro.DiskBlockSize = 512 * 1024 }()
 	dir := filepath.Join(c.Tmp, "bk")
@@ -325,6 +415,11 @@ func runC11(c *rt.C) {
 	total := 0
 	for _, f := range b.files {
 		total += len(f.data)
+	}
+	zc := b.zeroChecksumShards()
+	c.Count("nonempty_shards_with_recorded_checksum_0", int64(zc))
+	if zc > 0 {
+		c.Sig("backup-has-zero-checksum-shard")
 	}
 	budget := 1500
 	if c.Tier == "thorough" {
